@@ -193,7 +193,7 @@ def functional_headed(sig, k):
     return bool(y and y['fn'])
 
 
-def abstract(rng, sig, cur, fresh):
+def abstract(rng, sig, cur, fresh, vsort=None):
     """anti-unify: replace some functional-headed proper subterms of `cur` by fresh variables"""
     theta = {}
     lhs = cur
@@ -218,19 +218,21 @@ def abstract(rng, sig, cur, fresh):
         else:
             x = fresh()
             theta[x] = t
-        lhs = replace_at(lhs, p, ('E', x, gen_sortapp(rng, sig)))
+        lhs = replace_at(lhs, p, ('E', x, vsort(x) if vsort else gen_sortapp(rng, sig)))
     return lhs, theta
 
 
-def gen_rhs(rng, sig, xs, depth, top=True):
+def gen_rhs(rng, sig, xs, depth, top=True, vsort=None):
     """term over the variables xs"""
+    vsort = vsort or (lambda x: gen_sortapp(rng, sig))
     if top and rng.random() < 0.04:
         # an existential on the right-hand side (fresh ?-variable of a K rule): the bound variable joins the
         # rule's scope and is left uninstantiated by the trace
-        v = ('E', 'Fresh', gen_sortapp(rng, sig))
-        return ('N', 'ex', [v[2], gen_sortapp(rng, sig)], [v, gen_rhs(rng, sig, xs + ['Fresh'], depth, top=False)])
+        v = ('E', 'Fresh', vsort('Fresh'))
+        return ('N', 'ex', [v[2], gen_sortapp(rng, sig)], [v, gen_rhs(rng, sig, xs + ['Fresh'], depth, top=False, vsort=vsort)])
     if xs and rng.random() < 0.35:
-        return ('E', rng.choice(xs), gen_sortapp(rng, sig))
+        x = rng.choice(xs)
+        return ('E', x, vsort(x))
     sorts, syms = sig
     cands = syms if depth > 0 else ([y for y in syms if y['narg'] == 0] or syms)
     y = rng.choice(cands)
@@ -238,7 +240,7 @@ def gen_rhs(rng, sig, xs, depth, top=True):
     if depth <= -2:
         args = [app(next(z['name'] for z in syms if z['narg'] == 0 and z['npar'] == 0)) for _ in range(y['narg'])]
     else:
-        args = [gen_rhs(rng, sig, xs, depth - 1, top=False) for _ in range(y['narg'])]
+        args = [gen_rhs(rng, sig, xs, depth - 1, top=False, vsort=vsort) for _ in range(y['narg'])]
     return app(y['name'], args, ss)
 
 
@@ -264,11 +266,21 @@ def other_axiom(rng, sig):
 def gen_trace_case(rng, idx):
     """a definition, an initial configuration and an LLVM-style trace; plus what the construction implies"""
     sig = gen_sig(rng)
-    counter = [0]
+    # variable names recur from rule to rule (as in K-generated definitions), one sort per name, unique within a rule
+    pool = ['X', 'Y', 'Var', 'K', 'Rest', 'Vé', 'X1', 'X2']
+    used = set()
+    vs = {}
 
     def fresh():
-        counter[0] += 1
-        return rng.choice(['X', 'Var', 'K', 'Rest', 'Vé']) + str(counter[0])
+        cands = [v for v in pool if v not in used]
+        x = rng.choice(cands) if cands else 'V%d' % len(used)
+        used.add(x)
+        return x
+
+    def vsort(x):
+        if x not in vs:
+            vs[x] = gen_sortapp(rng, sig)
+        return vs[x]
 
     s = gen_sortapp(rng, sig)
     if rng.random() < 0.1:
@@ -298,8 +310,9 @@ def gen_trace_case(rng, idx):
                 lhs, th = cur, {}
                 rhs = init                      # b -> a : closes the cycle a -> b -> a -> b ...
             else:
-                lhs, th = abstract(rng, sig, cur, fresh)
-                rhs = gen_rhs(rng, sig, list(th), rng.randint(0, 2))
+                used.clear()
+                lhs, th = abstract(rng, sig, cur, fresh, vsort)
+                rhs = gen_rhs(rng, sig, list(th), rng.randint(0, 2), vsort=vsort)
             o = len(axioms)
             axioms.append(rule_axiom(rng, sig, s, lhs, rhs))
             kinds.append('rw')
@@ -388,6 +401,100 @@ def gen_trace_case(rng, idx):
     case['items'] = items
     case['rules'] = rules
     return case
+
+
+def gen_shared_case(rng, idx):
+    """Several rules that SHARE NON-GROUND application subterms, the shared variables at different first-occurrence
+    positions: rule 0 is  C[extras.., D0] => D0,  rule i is  D(i-1) => Di  with Di over the variables of D(i-1); the
+    trace applies them in turn with one ground substitution, so it chains by construction.  The axioms appear in the
+    definition in a random order (ordinals follow), so rule i may be converted before or after rule i-1: conversion of
+    an axiom must not depend on which axioms the same LanguageSemantics converted before."""
+    sig = gen_sig(rng)
+    sorts, syms = sig
+    for name, narg in (('sh1', 1), ('sh2', 2), ('sh3', 3)):
+        syms.append(dict(name=name, npar=0, narg=narg, fn=True, cell=rng.random() < 0.2, ctor=True))
+    rng.shuffle(syms)
+    const = next(z['name'] for z in syms if z['narg'] == 0 and z['npar'] == 0 and z['fn'])
+    V = rng.sample(['X', 'Y', 'Z', 'W', 'K'], rng.randint(2, 4))
+    vs = {v: gen_sortapp(rng, sig) for v in V}
+
+    def var(v):
+        return ('E', v, vs[v])
+
+    def term_over(xs, depth):
+        for _ in range(20):
+            name, narg = rng.choice([('sh1', 1), ('sh2', 2), ('sh2', 2), ('sh3', 3)])
+            args = []
+            for _ in range(narg):
+                r = rng.random()
+                if depth > 0 and r < 0.35:
+                    args.append(term_over(xs, depth - 1))
+                elif r < 0.88:
+                    args.append(var(rng.choice(xs)))
+                else:
+                    args.append(app(const))
+            t = app(name, args)
+            if evars(t):
+                return t
+        return app('sh1', [var(xs[0])])
+
+    n = rng.randint(2, 5)
+    inner = rng.sample(V, rng.randint(1, len(V)))
+    D = [term_over(inner, rng.randint(0, 2))]
+    extras = [var(v) for v in rng.sample(V, rng.randint(1, min(2, len(V))))]
+    ctx_args = extras + [D[0]]
+    if rng.random() < 0.3:
+        rng.shuffle(ctx_args)
+    rules_lr = [(app('sh%d' % len(ctx_args), ctx_args), D[0])]
+    for i in range(1, n):
+        xs = evars(D[i - 1])
+        xs = list(reversed(xs)) if rng.random() < 0.6 else rng.sample(xs, len(xs))
+        D.append(term_over(xs, rng.randint(0, 1)))
+        rules_lr.append((D[i - 1], D[i]))
+    theta0 = {v: gen_ground(rng, sig, rng.randint(0, 1), functional_head=True, only_app=True) for v in V}
+    s = gen_sortapp(rng, sig)
+    # axioms in a random order, other axioms interleaved
+    pos = list(range(n))
+    rng.shuffle(pos)
+    slots = [('rw', i) for i in pos]
+    for _ in range(rng.randint(0, 2)):
+        slots.insert(rng.randint(0, len(slots)), ('other', None))
+    axioms, kinds, rules, ordinal = [], [], {}, {}
+    for kind, i in slots:
+        if kind == 'rw':
+            ordinal[i] = len(axioms)
+            rules[len(axioms)] = rules_lr[i]
+            axioms.append(rule_axiom(rng, sig, s, rules_lr[i][0], rules_lr[i][1]))
+            kinds.append('rw')
+        else:
+            k2, ax = other_axiom(rng, sig)
+            axioms.append(ax)
+            kinds.append(k2)
+    init = ksubst(theta0, rules_lr[0][0])
+    items = []
+    for i in range(n):
+        th = [(x, theta0[x]) for x in evars(rules_lr[i][0])]
+        rng.shuffle(th)
+        items.append(('R', ordinal[i], th))
+        items.append(('C', ksubst(theta0, rules_lr[i][1])))
+    return dict(idx=idx, sig=sig, axioms=axioms, kinds=kinds, init=init, items=items, rules=rules,
+                mutation='shared-subterms', two=rng.random() < 0.25)
+
+
+def rules_line(sig, axioms, two=False):
+    return ' '.join(['RULES2' if two else 'RULES', tok_sig(sig), str(len(axioms))] + [tok(a) for a in axioms])
+
+
+def parse_rules(res):
+    """'OK n [o K pat | names | sorts ; ...]' -> {ordinal: 'K pat | names | sorts'}"""
+    if not res.startswith('OK '):
+        return None
+    body = res[res.index('[') + 1:res.rindex(']')].strip()
+    out = {}
+    for part in (body.split(' ; ') if body else []):
+        o, rest = part.split(' ', 1)
+        out[int(o)] = rest.strip()
+    return out
 
 
 CONNECTIVES = ['rw', 'and', 'or', 'in', 'not', 'next', 'imp', 'ceil', 'floor', 'iff', 'eq', 'top', 'bot', 'ex', 'dv', 'app', 'var', 'un']
@@ -891,6 +998,7 @@ def run(tier, seed):
     n_tr = 220 if tier == 'quick' else 20000
     n_cv = 500 if tier == 'quick' else 50000
     n_hi = 300 if tier == 'quick' else 25000
+    n_sh = 80 if tier == 'quick' else 5000
 
     P = R.proof_stage()
     proof_broken = not P['ok']
@@ -924,6 +1032,19 @@ def run(tier, seed):
                 corpus_lines.append((f, d))
     for i in range(n_tr):
         cases.append(gen_trace_case(rng, i))
+    shared = [gen_shared_case(rng, i) for i in range(n_sh)]
+    cases += shared
+    # the same axioms through ONE LanguageSemantics in the given order, in reversed order, and each rewrite axiom alone
+    rules_reqs = []          # (case, order(list of original positions), line)
+    for c in shared:
+        n_ax = len(c['axioms'])
+        orders = [list(range(n_ax)), list(reversed(range(n_ax)))]
+        perm = list(range(n_ax))
+        rng.shuffle(perm)
+        orders.append(perm)
+        orders += [[k] for k in range(n_ax) if c['kinds'][k] == 'rw']
+        for od in orders:
+            rules_reqs.append((c, od, rules_line(c['sig'], [c['axioms'][k] for k in od], c['two'] and len(od) > 1)))
     for i in range(n_cv):
         sig = gen_sig(rng)
         st = dict(names=rng.sample(['X', 'Y', 'Z', 'X1', 'Var', 'x'], rng.randint(1, 4)), malformed=rng.random() < 0.3)
@@ -931,7 +1052,7 @@ def run(tier, seed):
 
     hcases = [gen_hints_case(rng, i) for i in range(n_hi)]
     lines = ([d['line'] for _, d in corpus_lines] + [gen_line(c) for c in cases] + [conv_line(s, k) for s, k, _ in conv_cases]
-             + [hints_line(c) for c in hcases])
+             + [hints_line(c) for c in hcases] + [r[2] for r in rules_reqs])
     impl, errs = run_impl(lines)
     for e in errs:
         R.notes.append('runner stderr: ' + e)
@@ -1039,6 +1160,29 @@ def run(tier, seed):
                                          impl=short(im['res'], 3000), exc=im.get('exc'), rust=rust_out.get(i),
                                          model=short(model[i], 3000)))
 
+    # ---- history independence of rule conversion, judged on the implementation's own answers: an axiom's
+    #      converted pattern and scope must be the same whatever was converted before it by the same object
+    base = nc + len(cases) + len(conv_cases) + len(hcases)
+    seen_rule = {}           # (case idx, original axiom position) -> (answer, request line, ordinal there)
+    for k, (c, od, ln) in enumerate(rules_reqs):
+        im = impl[base + k]
+        got = parse_rules(im['res'])
+        R.case(ln, len(od) > 1, 'rules-' + ('multi' if len(od) > 1 else 'single') + ':' + im['res'][:2].strip())
+        if got is None:
+            continue
+        for o_here, ans in got.items():
+            key = (c['idx'], od[o_here])
+            if key not in seen_rule:
+                seen_rule[key] = (ans, ln, o_here)
+            elif seen_rule[key][0] != ans:
+                R.violation('conversion-depends-on-history',
+                            'the same axiom is converted to different patterns/scopes depending on which axioms the same '
+                            'LanguageSemantics converted before it (equal variables of the rule no longer map to the '
+                            'metavariables of its own scope)',
+                            dict(line=ln, ordinal=o_here, answer=short(ans, 1200),
+                                 line2=seen_rule[key][1], ordinal2=seen_rule[key][2], answer2=short(seen_rule[key][0], 1200),
+                                 model=short(model[base + k], 1500)))
+
     # ---- refutation witnesses of Props/C20.v replayed on the implementation (known findings / fixed defects)
     judge_witnesses(R, corpus_lines, impl[:nc])
 
@@ -1056,7 +1200,7 @@ def run(tier, seed):
     elif mismatches:
         R.notes.append(f'{len(mismatches)} model/implementation mismatches, first: {json.dumps(mismatches[0])[:1500]}')
 
-    R.coverage['rule'] = ('GEN: random signature (1-4 sorts; 4-10 symbols, 0-3 arguments, 0-2 sort parameters, cells, kseq), '
+    R.coverage['rule'] = ('SHARED: 2-5 rules sharing non-ground application subterms (variables at different first-occurrence positions), axioms in random order, chained trace through all of them; RULES: the same axioms through one LanguageSemantics in 3 orders and singly, answers must agree per axiom. GEN: random signature (1-4 sorts; 4-10 symbols, 0-3 arguments, 0-2 sort parameters, cells, kseq), '
                           'rules obtained by anti-unifying the current configuration, ground substitutions, traces of 0-8 steps, '
                           '45% with one deliberate perturbation; distinct = distinct request line; non-trivial = at least one claim or refused. '
                           'CONV: random Kore terms over every constructor, 30% from a malformed stream; non-trivial = more than one node')
@@ -1107,11 +1251,13 @@ def replay(path):
         print(json.dumps(rp, indent=1)[:4000])
         return 0
     ok, log, mlref = build()
-    impl, _ = run_impl([line], chunks=1)
-    print('request :', short(line, 1500))
-    print('impl    :', short(json.dumps(impl[0]), 3000))
-    if ok:
-        print('model   :', short(C.run_lines(mlref, [line])[0], 3000))
+    lines = [line] + ([rp['line2']] if rp.get('line2') else [])
+    impl, _ = run_impl(lines, chunks=1)
+    for ln, im in zip(lines, impl):
+        print('request :', short(ln, 1500))
+        print('impl    :', short(json.dumps(im), 3000))
+        if ok:
+            print('model   :', short(C.run_lines(mlref, [ln])[0], 3000))
     if 'ser' in impl[0]:
         rs, _r, _e = C.build_rust()
         if rs:
